@@ -178,10 +178,11 @@ var c16BlockTxs = map[string][]string{
 	// a transaction given at byte level whose bytes are NOT what wire writes back (see c16RawTx)
 	"b3zerotok": {"coinbase", "zerotok", "minimal"},
 	// 300 transactions (index arithmetic beyond one byte); fixed call sequences only, see runC16
-	// 65536 transactions: the CompactSize transaction count needs its 5-byte form
-	"b65536": func() []string {
+	// 65540 transactions: the CompactSize transaction count needs its 5-byte form and the last four
+	// indices do not fit 16 bits
+	"b65540": func() []string {
 		out := []string{"coinbase"}
-		for k := 1; k < 65536; k++ {
+		for k := 1; k < 65540; k++ {
 			out = append(out, fmt.Sprintf("var#%d", k))
 		}
 		return out
@@ -345,7 +346,7 @@ func c16Refs() {
 	c16Once.Do(func() {
 		c16BlockRefs = map[string]*c16Ref{}
 		c16TxRefs = map[string]*c16Ref{}
-		for _, n := range append(append([]string{}, c16BlockNames...), "b300", "b65536") {
+		for _, n := range append(append([]string{}, c16BlockNames...), "b300", "b65540") {
 			c16BlockRefs[n] = c16BlockRefOf(c16BuildBlock(n))
 		}
 		for _, n := range c16TxNames {
@@ -1219,7 +1220,7 @@ func c16EvalBlock(w *mc.W, cas c16BlockCase) {
 	if cas.Other != "" {
 		c16OtherFor.Store(w, cas.Other)
 	}
-	c16RunBlock(w, cas.Fixture, cas.Ctor, ops, false, cas.Fixture != "b65536")
+	c16RunBlock(w, cas.Fixture, cas.Ctor, ops, false, cas.Fixture != "b65540")
 }
 
 // ---------------------------------------------------------------------------------------
@@ -1587,15 +1588,19 @@ func runC16(c *mc.Ctx) {
 		// 65536 transactions: locations, bytes and the two ends, every constructor (no final sweep)
 		var huge []c16BlockCase
 		for _, ct := range c16BlockCtors {
-			huge = append(huge, c16BlockCase{Fixture: "b65536", Ctor: ct, Ops: []string{"TxLoc", "Bytes", "Tx(65535)", "TxHash(0)", "Tx(65536)"}},
-				c16BlockCase{Fixture: "b65536", Ctor: ct, Ops: []string{"Tx(65535)", "TxLoc", "Hash"}})
+			huge = append(huge, c16BlockCase{Fixture: "b65540", Ctor: ct, Ops: []string{"TxLoc", "Bytes", "Tx(65535)", "TxHash(0)", "Tx(65540)"}},
+				c16BlockCase{Fixture: "b65540", Ctor: ct, Ops: []string{"Tx(65535)", "TxLoc", "Hash"}},
+				// indices beyond 16 bits, touched before and after the bulk accessor
+				c16BlockCase{Fixture: "b65540", Ctor: ct, Ops: []string{"Tx(65538)", "Transactions", "Tx(65538)", "Tx(2)"}},
+				c16BlockCase{Fixture: "b65540", Ctor: ct, Ops: []string{"TxHash(65539)", "Tx(65539)", "Tx(65536)", "Transactions"}},
+				c16BlockCase{Fixture: "b65540", Ctor: ct, Ops: []string{"Transactions", "Tx(65537)", "TxHash(65536)"}})
 		}
 		// two live wrappers: a second, different block is parsed between the construction of the block
 		// under test and its accessors (scratch state shared between wrappers would show here)
 		var pairs []c16BlockCase
-		for _, fx := range []string{"b3", "b300", "b65536"} {
+		for _, fx := range []string{"b3", "b300", "b65540"} {
 			for _, ct := range c16BlockCtors {
-				for _, other := range []string{"b300|NewBlockFromReader", "b65536|NewBlockFromReader", "b3tok|NewBlockFromBytes", "b300|NewBlock"} {
+				for _, other := range []string{"b300|NewBlockFromReader", "b65540|NewBlockFromReader", "b3tok|NewBlockFromBytes", "b300|NewBlock"} {
 					if strings.HasPrefix(other, fx+"|") {
 						continue
 					}
@@ -1605,7 +1610,7 @@ func runC16(c *mc.Ctx) {
 		}
 		c.Space("block: wrapper under test x a second block constructed in between", int64(len(pairs)))
 		c16ParFor(c, int64(len(pairs)), func(w *mc.W, i int64) { c16EvalBlock(w, pairs[i]) })
-		c.Space("block: 65536-transaction fixture x constructor x fixed call sequences", int64(len(huge)))
+		c.Space("block: 65540-transaction fixture x constructor x fixed call sequences", int64(len(huge)))
 		c16ParFor(c, int64(len(huge)), func(w *mc.W, i int64) {
 			ops := make([]c16Op, len(huge[i].Ops))
 			for k, o := range huge[i].Ops {
